@@ -141,6 +141,7 @@ def c05(chk, thorough):
         'generator stores only ids that left the rejection loop as "not present" and has >= nobj cells; (LY) residual = '
         'prediction - matching response column. NOT decided: equality with a model refitted through the public API, '
         'finiteness of predictions, that the group matrix content is a permutation, averaging arithmetic.')
+    chk.explanation += (' (T6) per-worker prediction accumulators are fresh for every batch of bootstrap iterations.')
     chk.assumptions = ['train/test/selector roles are derived from the control dependence of kfold_group_train_test_split itself',
                        'fit entry points are PLS/MLR/EPLS/LDA with (x, y) as first two arguments']
     prog = load_program(chk, ['modelvalidation.c', 'pls.c'])
@@ -173,6 +174,8 @@ def c16(chk, thorough):
         'table before inserting into it (SQL effects classified from the constant strings reaching sqlite3_exec/prepare); '
         '(d) writing never stores through the model; (e) the textual conversion keeps >= 15 fractional digits. NOT decided: '
         'SQLite internals, text->double rounding, prediction equality after reload.')
+    chk.explanation += (' Also: SQL text is built in storage sized from its formatted length (IO.sql-buffer) and no connection-lifetime lock is combined '
+                        'with a statement that may stay unfinalized at close (IO.lock-lifetime).')
     chk.assumptions = ['sqlite3_exec/sqlite3_prepare_v2(+step) are the only ways SQL reaches the database',
                        'a SELECT that merely builds statement text is not destructive unless a registered callback executes its rows']
     prog = load_program(chk, ['io.c', 'pca.c', 'cpca.c', 'pls.c', 'vector.c', 'matrix.c', 'tensor.c', 'list.c'])
@@ -194,8 +197,9 @@ def c08(chk, thorough):
         'abstracted to class index + offset(class_start); comparisons between labels and indices, stores of predicted labels and '
         'subscripts of per-class dimensions must carry the right offset for both numbering conventions (class_start 0 and 1); '
         'LDAMulticlassStatistics (labels from 0) additionally must feed both the true and the predicted labels into the ROC '
-        'inputs (dead-input and overwritten-store dataflow rules). NOT decided: prior/mean values, arg-max optimality, affine '
-        'invariance, AUC = 1.')
+        'inputs (dead-input and overwritten-store dataflow rules); the arg-max idiom is seeded from the compared quantity; every '
+        'non-constant value appended once per iteration of a loop over the classes depends on the loop index (DF.per-index: no stale '
+        'prior/mean/statistic). NOT decided: the numeric value of priors and means, arg-max optimality, affine invariance, AUC = 1.')
     chk.assumptions = ['class_start is 0 or 1 (its only definitions are those two constants; re-derived on every run)',
                        'label containers: LDA/LDAError parameter 1, LDAPrediction parameter 5 and locals bound to it']
     prog = load_program(chk, ['lda.c', 'statistic.c', 'vector.c', 'matrix.c'])
@@ -353,6 +357,8 @@ def c11(chk, thorough):
         'internal call establishes its callee\'s contract. Index-role slips (m[j][i], a row bound on a column loop, a missing +1) are '
         'refuted by a small non-square witness. NOT decided: the numeric value of any kernel, algebraic laws, ordering by key, coverage '
         'of the inner dimension by the unrolled loop plus tail.')
+    chk.explanation += (' Also: MatrixSort/MatrixReverseSort exchange whole rows exactly when a plain strict key comparison finds them out of order '
+                        '(SORT.shape), and no kernel applies an absolute tolerance to a data-scaled quantity outside the confirmed sites (K.tolerance).')
     chk.assumptions = ['contracts of lsv/contracts.json', 'distinct parameters do not alias', 'LP64']
     prog = load_program(chk, ['vector.c', 'list.c', 'matrix.c', 'tensor.c', 'memwrapper.c', 'numeric.c'])
     contractmode.run(chk, prog, contractmode.C11_FUNCS, dom=4 if thorough else 3)
@@ -402,6 +408,7 @@ def c13(chk, thorough):
         'indexed by the sliced variable; S5: condensed vectors are sized (n*n-n)/2; T3: every created thread is joined before its '
         'arguments are freed; worker subscripts are in range under the facts the dispatcher establishes. NOT decided: numeric agreement '
         'with the sequential kernels, metric axioms, bijectivity of the condensed index map (assumption), the value of GetNProcessor.')
+    chk.explanation += (' Closed-form block schemes (lo = th*n, hi = th+1 < N ? (th+1)*n : extent) are evaluated like the running-offset ones.')
     chk.assumptions = ['square_to_condensed_index is injective on pairs i < k (arithmetic over runtime n, not decided)',
                        'thread count >= 1', 'worker contracts of lsv/contracts.json (facts the dispatchers establish)']
     prog = load_program(chk, ['matrix.c', 'metricspace.c', 'clustering.c', 'vector.c', 'memwrapper.c', 'numeric.c', 'list.c', 'tensor.c'])
